@@ -123,6 +123,9 @@ def run(ctx):
     for i in range(1500 if thorough else 110):
         one(ca.decimal_case(rng, absent=(i % 2 == 0)), "decimal-weights")
 
+    for i in range(1500 if thorough else 120):
+        rc_ = ca.relations_case(rng)
+        ca.run_relations(S, rc_, rng.choice(formats_of(rc_)))
     for i in range(900 if thorough else 70):
         one(ca.int_weights_case(rng), "int-weights")
     for i in range(500 if thorough else 40):
